@@ -1232,6 +1232,13 @@ func conv(i *interpreter, t_dst, t_src types.Type, x value) value {
 
 	if sx, ok := x.(sym); ok {
 		if b, ok := ut_dst.(*types.Basic); ok {
+			if b.Kind() == types.String {
+				r32 := i.symConv(types.Int32, sx)
+				if rs, ok := r32.(sym); ok {
+					return mkstr(i.encodeRuneSym(rs))
+				}
+				return string(r32.(int32))
+			}
 			return i.symConv(b.Kind(), sx)
 		}
 		panic(engineError(fmt.Sprintf("conversion of symbolic value to %s", t_dst)))
@@ -1271,15 +1278,18 @@ func conv(i *interpreter, t_dst, t_src types.Type, x value) value {
 
 		case types.Rune:
 			x := x.([]value)
-			r := make([]rune, 0, len(x))
+			var out []value
 			for j := range x {
-				rv, ok := x[j].(rune)
-				if !ok {
-					panic(engineError("[]rune with symbolic elements to string"))
+				switch rv := x[j].(type) {
+				case rune:
+					out = append(out, strBytes(string(rv))...)
+				case sym:
+					out = append(out, i.encodeRuneSym(rv)...)
+				default:
+					panic(engineError("[]rune element of unexpected type"))
 				}
-				r = append(r, rv)
 			}
-			return string(r)
+			return mkstr(out)
 		}
 
 	case *types.Basic:
